@@ -134,6 +134,9 @@ class AsgiHttpPeer:
         self.recv_after_disconnect = 0
         self.disconnected = loop.create_future()
         self.t_disconnect = None
+        self.disc_why = None
+        self.on_disconnect = None
+        self.on_disconnect_delivered = None
         self.disconnect_delivered = 0
         self.raise_after_disconnect = raise_after_disconnect
         self.disconnect_after_sends = disconnect_after_sends
@@ -158,6 +161,9 @@ class AsgiHttpPeer:
         if not self.disconnected.done():
             self.disconnected.set_result(None)
             self.t_disconnect = self.loop.time()
+            self.disc_why = why
+            if self.on_disconnect is not None:
+                self.on_disconnect(why)
             self.ctx.sch("disc", why, round(self.loop.time(), 6))
             if why != "complete":
                 self.ctx.fault("disconnect")
@@ -187,6 +193,8 @@ class AsgiHttpPeer:
                 msg = {"type": "http.disconnect"}
             if msg["type"] == "http.disconnect":
                 self.disconnect_delivered += 1
+                if self.on_disconnect_delivered is not None:
+                    self.on_disconnect_delivered()
                 if not self.disconnected.done():
                     self.disconnect_now("script")
             self.recv_returns.append((round(self.loop.time(), 6), msg["type"], len(msg.get("body", b"") or b"")))
